@@ -700,6 +700,9 @@ def publish_rules(run, rule, dec, ast):
     if not over_records:
         run.instance(rule, "decode_dispatch_data publishes over a range without repeated ids", (dec["file"], pubs[0]["l"]), ok=True)
         return
+    if not his and pol and pol.group(1) in witness.POLICIES.values() and [k for k, v in witness.POLICIES.items() if v == pol.group(1)][0] not in witness.HASHED:
+        run.instance(rule, "decode_dispatch_data<%s> publishes over the registration records; the policy has no type hash (no search to reject a repeated id)" % pol.group(1), (dec["file"], pubs[0]["l"]), ok=True)
+        return
     if not his:
         run.broken.append("decode_dispatch_data<%s>: the hash search reached from the decoder's publication is not in the unit" % (pol.group(1) if pol else "?"))
         return
